@@ -504,8 +504,11 @@ def dedup_replay(inputs, clause):
     md_of = import_real(FS, 'create_MD_tag')
     g = inputs.get('ghost', {})
     cigar = [(op, max(1, min(int(n), 40))) for op, n in g['CIGAR']]
+    # block lengths are arbitrary in the contract: very short blocks hide MD differences ('1' either way), so every aligned
+    # block gets at least 3 bases and the first one room for a dove-tailing mate pair
+    cigar = [(op, max(n, 3) if op == 'M' else n) for op, n in cigar]
     if cigar[0][0] == 'M' and cigar[0][1] < 8:
-        cigar[0] = ('M', 8)      # room for a dove-tailing mate pair on the first block (any admissible length will do)
+        cigar[0] = ('M', 8)
     mns = inputs.get('max_N_span')
     rng = random.Random(7)
     off = 100
